@@ -167,6 +167,14 @@ struct TableZero {
   nop::Entry<int, 0> a;
   NOP_TABLE(TableZero, a);
 };
+// Entries whose value type is itself an Optional (and a Result / Variant): re-seating such an entry must not be
+// mistaken for assigning an empty wrapper.
+struct TableOpt {
+  nop::Entry<nop::Optional<int>, 1> a;
+  nop::Entry<nop::Optional<std::string>, 2> b;
+  nop::Entry<int, 3> c;
+  NOP_TABLE(TableOpt, a, b, c);
+};
 struct HoldsTable {
   int before;
   TableV2 table;
